@@ -5,6 +5,7 @@ import (
 	"fmt"
 	"reflect"
 	"strings"
+	"sync"
 )
 
 // Object holds the definition for objects comprised of defined fields.
@@ -66,7 +67,19 @@ func (o *ObjectSchema) ReflectedType() reflect.Type {
 	return reflect.TypeOf(map[string]any{})
 }
 
+// objectDefaultsLock guards the lazy extraction of ObjectSchema.defaultValues (object schemas rebuilt from a
+// description start without them). It is package-level because ObjectSchema values are copied (TypedObjectSchema).
+var objectDefaultsLock sync.RWMutex
+
 func (o *ObjectSchema) GetDefaults() map[string]any {
+	objectDefaultsLock.RLock()
+	defaultValues := o.defaultValues
+	objectDefaultsLock.RUnlock()
+	if defaultValues != nil {
+		return defaultValues
+	}
+	objectDefaultsLock.Lock()
+	defer objectDefaultsLock.Unlock()
 	if o.defaultValues == nil {
 		o.defaultValues = extractObjectDefaultValues(o.PropertiesValue)
 	}
